@@ -13,8 +13,9 @@ class Harness:
     """history = bounded sequence of actions {commit k ops on replica i, sync replica i}; then every replica
     syncs until nothing is left to send"""
 
-    def __init__(self, nrep, nactions, max_ops, uuids, props, name):
+    def __init__(self, nrep, nactions, max_ops, uuids, props, name, prelude=False):
         self.I = get_interp()
+        self.prelude = prelude
         self.nrep, self.nactions, self.max_ops = nrep, nactions, max_ops
         self.uuids, self.props, self.name = uuids, props, name
 
@@ -22,6 +23,13 @@ class Harness:
         w = SyncWorld(self.I, ctx, self.nrep, self.uuids, self.props)
         c = ctx
         nsync_mid = 0
+        if self.prelude:
+            # the shared task already exists everywhere: conflicts among updates/deletes are inside a short history
+            w.force_op = ('create', self.uuids[0], None)
+            w.do_commit(0, 1, allow_delete=False)
+            w.force_op = None
+            for r in range(self.nrep):
+                w.do_sync(r)
         for a in range(self.nactions):
             # action alphabet: for each replica: sync, or commit of 1..max_ops operations; or stop early
             k = c.choose(self.nrep * (1 + self.max_ops) + 1, 'action')
@@ -120,8 +128,12 @@ def configs(tier):
                  bounds='2 replicas, <=3 actions (commit of 1-2 ops | sync) then 2 sync rounds, 1 task, 2 properties'),
         ]
     return [
-        dict(name='R2-T1-P2-A4', factory=lambda: Harness(2, 4, 2, (1,), ('p', 'q'), 'R2-T1-P2-A4'),
-             bounds='2 replicas, <=4 actions, 1 task, 2 properties'),
+        dict(name='R2-T1-P1-A4', factory=lambda: Harness(2, 4, 2, (1,), ('p',), 'R2-T1-P1-A4'),
+             bounds='2 replicas, <=4 actions (commit of 1-2 ops | sync), 1 task, 1 property', time_limit_s=3300),
+        dict(name='R2-T2-P1-A3', factory=lambda: Harness(2, 3, 2, (1, 2), ('p',), 'R2-T2-P1-A3'),
+             bounds='2 replicas, <=3 actions, 2 tasks, 1 property', time_limit_s=3300),
         dict(name='R3-T1-P1-A3', factory=lambda: Harness(3, 3, 2, (1,), ('p',), 'R3-T1-P1-A3'),
              bounds='3 replicas, <=3 actions, 1 task, 1 property'),
+        dict(name='R3-T1-P1-A3-shared', factory=lambda: Harness(3, 3, 1, (1,), ('p',), 'R3-T1-P1-A3-shared', prelude=True),
+             bounds='3 replicas that already share the task, <=3 actions (commit of 1 op | sync), 1 property', time_limit_s=3300),
     ]
